@@ -103,6 +103,7 @@ pub fn exec_bv(st: &mut State, name: &str, t: &[&str]) -> String {
             st.objs.insert(name.to_string(), Obj::Bv(v));
             return s;
         },
+        "ref" => return "ok".to_string(),
         "eq" => {
             let other = st.bv(t[1]).clone();
             return (*st.bv(name) == other).to_string();
@@ -134,7 +135,7 @@ pub fn exec_bv(st: &mut State, name: &str, t: &[&str]) -> String {
         "select0" => opt_usize(v.select_zero(parse_usize(t[1]))),
         "pred" => opt_pair(v.predecessor(parse_usize(t[1])).next()),
         "succ" => opt_pair(v.successor(parse_usize(t[1])).next()),
-        "ser" => words_to_string(&ser_words(v)),
+        "ser" | "doc" => words_to_string(&ser_words(v)),
         // it <kind> [arg] : calls…
         "it" => {
             let colon = t.iter().position(|x| *x == ":").expect("harness: it needs ':'");
